@@ -7,7 +7,15 @@
 (* field / a 64-bit bsdiff header field replaced inside the packed image by 0, +-1, 2^31, 2^32-1,    *)
 (* 2^64-1; a different base.  The driver concretises bytes from VERIF_SEED; Trace_Ptch re-evaluates   *)
 (* every applied file with the reference semantics of Ptch.tla.                                       *)
+(* Round 4 -- the RLE layer under BSD0 as a dimension: the control-byte space 0..255.  A "runs" plan    *)
+(* describes one block of the bsdiff image (extra or data) as a sequence of runs <<kind, length>>, kind  *)
+(* 1 = non-zero bytes, 0 = zero bytes.  One plan per control byte cb holds exactly one run of            *)
+(* Ptch!RunLen(cb) bytes of cb's kind between delimiters of the other kind, plus runs longer than one     *)
+(* control byte can express.  TLC certifies below (RunsCoverCtlSpace) that the canonical RLE encoding     *)
+(* of the images of these plans uses every control byte 0x00..0xFF; Trace_Ptch binds the driver's encoder *)
+(* to that canonical encoder (DRIFT encoder-not-canonical).                                               *)
 EXTENDS Integers, Sequences, SequencesExt, FiniteSets, Json, IOUtils, TLC
+P == INSTANCE Ptch WITH SeekMode <- "signed", pplan <- <<>>, pphase <- "", pacc <- <<>>, pci <- 0
 
 Thorough == IOEnv.VERIF_TIER = "thorough"
 T(a, m, s) == <<a, m, s>>
@@ -49,11 +57,37 @@ Muts ==
   \cup {Mut("baseLen", 0, v) : v \in {1, -1}}
 Alphas == IF Thorough THEN {"random", "zeros", "sparse", "high"} ELSE {"random", "sparse"}
 Dens   == IF Thorough THEN {0, 1, 4} ELSE {1}
+\* ---- run plans (RLE control-byte space)
+RunsFor(cb) == IF P!RunIsLit(cb) THEN <<<<0, 1>>, <<1, P!RunLen(cb)>>, <<0, 1>>>>
+               ELSE <<<<1, 1>>, <<0, P!RunLen(cb)>>, <<1, 1>>>>
+LongRuns    == {<<<<1 - k, 1>>, <<k, n>>, <<1 - k, 2>>>> : k \in {0, 1}, n \in {129, 255, 256, 257, 384}}
+RunTotal(r) == FoldLeft(LAMBDA acc, x : acc + x[2], 0, r)
+CtlBoundary == {0, 1, 126, 127, 128, 129, 254, 255}
+RunShape(r, blk) ==
+  [shape |-> "runs", oldLen |-> IF blk = "data" THEN RunTotal(r) ELSE 11, newLen |-> 0,
+   ctrl |-> IF blk = "data" THEN <<T(RunTotal(r), 0, 0)>> ELSE <<T(0, RunTotal(r), 0)>>, neg |-> FALSE, runs |-> r, blk |-> blk]
+RunShapes == {RunShape(RunsFor(cb), "extra") : cb \in 0..255}
+             \cup {RunShape(RunsFor(cb), "data") : cb \in CtlBoundary}
+             \cup {RunShape(r, b) : r \in LongRuns, b \in {"extra", "data"}}
+RunMuts(r) == {Mut("none", 0, 0)}
+              \cup (IF \E cb \in CtlBoundary : r = RunsFor(cb) THEN {Mut("payload", 0, 0), Mut("flip", 1000, 0), Mut("baseLen", 0, 1)} ELSE {})
+RunCases == { [kind |-> "plan", shape |-> s.shape, oldLen |-> s.oldLen, newLen |-> s.newLen, ctrl |-> s.ctrl,
+               neg |-> s.neg, alpha |-> "random", density |-> 1, mut |-> m, runs |-> s.runs, blk |-> s.blk]
+              : s \in RunShapes, m \in UNION {RunMuts(x.runs) : x \in RunShapes} }
+RunSel == {c \in RunCases : c.mut \in RunMuts(c.runs)}
+\* the abstract image of a run plan (every non-zero byte drawn as 1) and the control bytes of its canonical encoding
+RunBlock(r) == FoldLeft(LAMBDA acc, x : acc \o [j \in 1..x[2] |-> x[1]], <<>>, r)
+RunImage(s) == LET t == [add |-> s.ctrl[1][1], mov |-> s.ctrl[1][2], seek |-> s.ctrl[1][3]]
+               IN  P!ImageOf(<<t>>, IF s.blk = "data" THEN RunBlock(s.runs) ELSE <<>>,
+                             IF s.blk = "data" THEN <<>> ELSE RunBlock(s.runs), t.add + t.mov)
+ASSUME RunsCoverCtlSpace ==
+  /\ \A cb \in 0..255 : cb \in P!CtlBytes(P!RleEncode(RunImage(RunShape(RunsFor(cb), "extra"))))
+  /\ \A s \in RunShapes : P!RleDecode(P!RleEncode(RunImage(s)), Len(RunImage(s))).ok
 Applicable(s, m) == (m.k \in {"ctrl", "img64"}) => (s.shape # "copy" /\ (m.k = "ctrl" => m.off < 3 * Len(s.ctrl)))
 Cases == { [kind |-> "plan", shape |-> s.shape, oldLen |-> s.oldLen, newLen |-> s.newLen, ctrl |-> s.ctrl,
-            neg |-> s.neg, alpha |-> a, density |-> d, mut |-> m]
+            neg |-> s.neg, alpha |-> a, density |-> d, mut |-> m, runs |-> <<>>, blk |-> ""]
            : s \in Shapes, a \in Alphas, d \in Dens, m \in {x \in Muts : TRUE} }
 Sel == {c \in Cases : Applicable([shape |-> c.shape, ctrl |-> c.ctrl], c.mut)}
-ASSUME ndJsonSerialize(IOEnv.CASES, SetToSeq(Sel))
-ASSUME PrintT(<<"GENERATED", Cardinality(Sel)>>)
+ASSUME ndJsonSerialize(IOEnv.CASES, SetToSeq(Sel) \o SetToSeq(RunSel))
+ASSUME PrintT(<<"GENERATED", Cardinality(Sel) + Cardinality(RunSel)>>)
 =============================================================================
